@@ -294,6 +294,10 @@ func (d *Driver) GenVC(key string, safety bool, lockCheck bool) (fvc *FuncVC) {
 		for _, rq := range c.Requires {
 			vc.assume(ex.trBool(rq.Expr, env))
 		}
+		for _, rq := range c.Assumed {
+			vc.assume(ex.trBool(rq.Expr, env))
+			vc.note("assumed data-structure invariant of " + key + ": " + rq.Src)
+		}
 	}
 	d.captureObligations(ex, fn, key)
 	o := vc.oblige("vacuity", key+"/vacuity:requires-satisfiable", "true", "false", "preconditions and invariants are jointly satisfiable", "", nil)
